@@ -129,7 +129,7 @@ class NF:
                 if ka == "ret" and kb == "ret":
                     if astq.canon(va) == astq.canon(vb):
                         return "ret", va
-                    return "ret", ast.IfExp(test=test, body=va, orelse=vb)
+                    return "ret", cond(test, va, vb)
                 if ka == "fall" and kb == "fall":
                     for nm in set(ea) | set(eb):
                         a, b = ea.get(nm), eb.get(nm)
@@ -138,7 +138,7 @@ class NF:
                         elif astq.canon(a) == astq.canon(b):
                             env[nm] = a
                         else:
-                            env[nm] = ast.IfExp(test=test, body=a, orelse=b)
+                            env[nm] = cond(test, a, b)
                     return "fall", None
                 raise Undecided("a branch returns while its sibling falls off the end")
             if isinstance(st, ast.For):
@@ -210,6 +210,15 @@ class NF:
             def visit_Lambda(self, node):
                 return node
 
+            def visit_IfExp(self, node):
+                node = self.generic_visit(node)
+                f_ = fold_test(node.test)
+                if f_ is True:
+                    return node.body
+                if f_ is False:
+                    return node.orelse
+                return cond(node.test, node.body, node.orelse)
+
             def visit_Call(self, node):
                 node = self.generic_visit(node)
                 return me.inline(node, frame) or node
@@ -253,6 +262,41 @@ class NF:
                 except Undecided:
                     return None
         return None
+
+
+_FLIP = {ast.Eq: ast.NotEq, ast.NotEq: ast.Eq, ast.Lt: ast.GtE, ast.GtE: ast.Lt, ast.Gt: ast.LtE, ast.LtE: ast.Gt,
+         ast.Is: ast.IsNot, ast.IsNot: ast.Is, ast.In: ast.NotIn, ast.NotIn: ast.In}
+
+
+def negate(t):
+    """structural negation: not not x = x, flipped comparators, De Morgan"""
+    if isinstance(t, ast.UnaryOp) and isinstance(t.op, ast.Not):
+        return t.operand
+    if isinstance(t, ast.Compare) and len(t.ops) == 1 and type(t.ops[0]) in _FLIP:
+        return ast.Compare(left=t.left, ops=[_FLIP[type(t.ops[0])]()], comparators=t.comparators)
+    if isinstance(t, ast.BoolOp):
+        return ast.BoolOp(op=ast.Or() if isinstance(t.op, ast.And) else ast.And(), values=[negate(v) for v in t.values])
+    return ast.UnaryOp(op=ast.Not(), operand=t)
+
+
+def _mirror(t):
+    """a > b  ==  b < a : put comparisons into one orientation"""
+    class M(ast.NodeTransformer):
+        def visit_Compare(self, node):
+            node = self.generic_visit(node)
+            if len(node.ops) == 1 and isinstance(node.ops[0], (ast.Gt, ast.GtE)):
+                op = ast.Lt() if isinstance(node.ops[0], ast.Gt) else ast.LtE()
+                return ast.Compare(left=node.comparators[0], ops=[op], comparators=[node.left])
+            return node
+    return M().visit(copy.deepcopy(t))
+
+
+def cond(test, a, b):
+    """conditional value with a canonical polarity of the test (so `if c: A else: B` == `if not c: B else: A`)"""
+    t1, t2 = _mirror(test), _mirror(negate(test))
+    if astq.canon(t2) < astq.canon(t1):
+        return ast.IfExp(test=t2, body=b, orelse=a)
+    return ast.IfExp(test=t1, body=a, orelse=b)
 
 
 def rename_self(expr, selfname):
@@ -322,11 +366,20 @@ class Duality:
                 self.cmp(a.right, b.right, where)
                 return
             self.pairs.append((where, "operator", oa, ob, (oa, ob) in OP_PAIRS))
-            if self.same(a.left, b.left) and self.same(a.right, b.right):
-                return
-            if isinstance(b.op, (ast.Add, ast.Mult)) and self.same(a.left, b.right) and self.same(a.right, b.left):
-                return
-            self.problems.append("operands of `%s` and of its inverse `%s` differ" % (ast.unparse(a), ast.unparse(b)))
+            orders = [((a.left, b.left), (a.right, b.right))]
+            if isinstance(b.op, (ast.Add, ast.Mult)):
+                orders.append(((a.left, b.right), (a.right, b.left)))
+            best = None
+            for order in orders:
+                trial = Duality(self.repo, self.module, self.cls)
+                for x, y in order:
+                    trial.cmp(x, y, where)
+                if not trial.problems and not trial.pairs:
+                    return
+                if best is None:
+                    best = trial
+            self.problems.append("operands of `%s` and of its inverse `%s` differ%s" % (
+                ast.unparse(a), ast.unparse(b), (": " + "; ".join(best.problems[:2])) if best is not None and best.problems else ""))
             return
         if isinstance(a, ast.Call) and isinstance(b, ast.Call):
             fa, fb = a.func, b.func
@@ -340,8 +393,11 @@ class Duality:
                     self.problems.append("different callees `%s` vs `%s`" % (ast.unparse(fa), ast.unparse(fb)))
                     return
             ka, kb = self.bound(a), self.bound(b)
+            # the exogenous X handed through to a wrapped transformer's transform / inverse_transform may be omitted on one side
+            # (DESIGN A.3: `transformer_.inverse_transform(z, ...)`); everywhere else (e.g. forecaster_.predict(fh, X)) arguments must agree
+            wrapped = isinstance(fa, ast.Attribute) and isinstance(fb, ast.Attribute) and (fa.attr, fb.attr) in METHOD_PAIRS
             for nm in sorted(set(ka) | set(kb), key=str):
-                self.cmp_arg(ka.get(nm), kb.get(nm), where, "argument %s" % nm, nm)
+                self.cmp_arg(ka.get(nm), kb.get(nm), where, "argument %s" % nm, nm, tolerate_exo=wrapped)
             return
         if isinstance(a, ast.Attribute) and isinstance(b, ast.Attribute) and a.attr == b.attr:
             self.cmp(a.value, b.value, where)
@@ -374,7 +430,7 @@ class Duality:
             out[k.arg] = k.value
         return out
 
-    def cmp_arg(self, x, y, where, what, key):
+    def cmp_arg(self, x, y, where, what, key, tolerate_exo=False):
         def exo(v):  # the exogenous data parameter handed through unchanged, or nothing
             return v is None or (isinstance(v, ast.Constant) and v.value is None) or (isinstance(v, ast.Name) and v.id == "X")
 
@@ -383,7 +439,7 @@ class Duality:
             ty = astq.const_value(y, False) if y is not None else False
             self.pairs.append((where, "order", "reverse=%s" % tx, "reverse=%s" % ty, (tx, ty) == (False, True)))
             return
-        if exo(x) and exo(y):
+        if tolerate_exo and exo(x) and exo(y):
             return
         if x is None or y is None:
             self.problems.append("%s given on one side only" % what)
@@ -961,21 +1017,54 @@ def period_length_ok(repo, module, fn, v):
     return all(res), why
 
 
-def duration_semantics(repo, fn):
-    """+1 if _get_duration(x, y) returns x - y on the two-point path, -1 for y - x; Undecided otherwise"""
-    found = None
-    for n in ast.walk(fn):
-        if isinstance(n, ast.Assign) and len(n.targets) == 1 and isinstance(n.targets[0], ast.Name) and n.targets[0].id == "duration" \
-                and isinstance(n.value, ast.BinOp) and isinstance(n.value.op, ast.Sub):
-            l, r = astq.canon(n.value.left), astq.canon(n.value.right)
-            if (l, r) == ("x", "y"):
-                found = 1
-            elif (l, r) == ("y", "x"):
-                found = -1
-    rets = astq.returns(fn)
-    if found is None or not rets or any(not (isinstance(r.value, ast.Name) and r.value.id == "duration") for r in rets):
-        raise Undecided("_get_duration does not return `duration = x - y`")
-    return found
+def duration_semantics(repo, fn, x_expr=None, y_expr=None):
+    """+1 if _get_duration(x, y) returns x - y on the two-point path, -1 for y - x; Undecided otherwise.
+    The function is evaluated symbolically (normal form with the actual, non-None second point), so its statement shape is irrelevant."""
+    mod = None
+    for m in repo.modules.values():
+        if m.defs.get(fn.name) is fn:
+            mod = m
+    if mod is None:
+        raise Undecided("_get_duration not found at module level")
+    X, Y = ast.Name(id="__x__", ctx=ast.Load()), ast.Attribute(value=ast.Name(id="__p__", ctx=ast.Load()), attr="y", ctx=ast.Load())
+    args = {"x": X, "y": Y, "coerce_to_int": ast.Constant(value=True),
+            "unit": ast.Call(func=ast.Name(id="__unit__", ctx=ast.Load()), args=[], keywords=[])}
+    names = astq.param_names(fn)
+    if not all(p in names for p in ("x", "y")):
+        raise Undecided("_get_duration has no parameters x, y")
+    nf = NF(repo, None, inline_functions=False).function(fn, mod, None, {k: v for k, v in args.items() if k in names}, 0, skip_self=False)
+
+    def ev(e):
+        if isinstance(e, ast.IfExp):
+            a, b = ev(e.body), ev(e.orelse)
+            if a != b:
+                raise Undecided("_get_duration returns different durations on different paths")
+            return a
+        if isinstance(e, ast.Call):
+            sym = repo.resolve_expr(mod, e.func)
+            if sym is not None and sym.dotted == "sktime.utils.datetime._coerce_duration_to_int" and e.args:
+                return ev(e.args[0])  # unit conversion of the same duration (assumption)
+            if isinstance(e.func, ast.Name) and e.func.id == "int" and len(e.args) == 1:
+                return ev(e.args[0])
+            raise Undecided("call `%s` in _get_duration" % ast.unparse(e)[:50])
+        if isinstance(e, ast.BinOp) and isinstance(e.op, (ast.Sub, ast.Add)):
+            a, b = ev(e.left), ev(e.right)
+            return a - b if isinstance(e.op, ast.Sub) else a + b
+        if isinstance(e, ast.UnaryOp) and isinstance(e.op, ast.USub):
+            return -ev(e.operand)
+        c = astq.canon(e)
+        if c == "__x__":
+            return Lin.sym("x")
+        if c == "__p__.y":
+            return Lin.sym("y")
+        raise Undecided("`%s` in _get_duration" % ast.unparse(e)[:50])
+
+    lin = ev(nf)
+    if lin == Lin.sym("x") - Lin.sym("y"):
+        return 1
+    if lin == Lin.sym("y") - Lin.sym("x"):
+        return -1
+    raise Undecided("_get_duration returns %r, neither x - y nor y - x" % lin)
 
 
 # ====================================================================================== R5
